@@ -286,13 +286,13 @@ var pageTableRel = storage.Relation{Fields: []storage.FieldDef{
 type treeErr struct{ kind, detail string }
 
 type walker struct {
-	fs      *storage.VerifStore
-	visited map[uint64]string
-	leaves  []storage.VerifNodeView
-	depth   int
-	err     *treeErr
-	nodes   int
-	maxDepth int
+	fs                *storage.VerifStore
+	visited           map[uint64]string
+	leaves            []storage.VerifNodeView
+	depth             int
+	err               *treeErr
+	nodes             int
+	maxDepth          int
 	internalSplitSeen bool
 }
 
